@@ -26,8 +26,11 @@ fn main() {
     install_quiet_panic_hook();
     let mut rep = Report::new("C05", &args);
     rep.rule = "typed random generator of core-language programs (see harness/src/coregen.rs): 3-8 top-level statements, \
-                nesting depth <= max_depth, ~10% programs with an injected fault (undeclared name, redeclaration, arity, type, \
-                unpack length, escaping break), half of those caught by try; compared: final value (dump of every top-level \
+                nesting depth <= max_depth, lambdas with type-annotated parameters (builtin type names, variables holding types, \
+                side-effecting / mismatching / non-type / unbound annotations, side-effecting defaults, assignments violating \
+                the declared type), ~10% programs with an injected fault (undeclared name, redeclaration, arity, type, \
+                unpack length, escaping break, annotation mismatch, annotation that is not a type, assignment of another \
+                kind to a typed parameter), half of those caught by try; compared: final value (dump of every top-level \
                 variable), printed output, raised/not raised. non-trivial = uses at least 4 distinct language features; \
                 distinct = distinct program text"
         .into();
